@@ -22,7 +22,6 @@ from .py2coq import Untranslatable, fail, get_function, strip_doc
 
 HEADER = """(* GENERATED on every run from /repo by translate/gen_loop.py -- do not edit *)
 From Coq Require Import ZArith Bool.
-From Coq Require Import Floats.PrimFloat.
 From MV Require Import Model.LoopNum.
 
 Section GenLoop.
@@ -48,6 +47,20 @@ STATE = {
 
 ABS = {("", "abs"), ("np", "abs"), ("np", "fabs"), ("m", "fabs"), ("math", "fabs"), ("np", "absolute")}
 SQRT = {("np", "sqrt"), ("m", "sqrt"), ("math", "sqrt")}
+
+
+def bin_parts(v):
+    """finite float v = b * 2**x exactly, b an integer of at most 53 bits"""
+    import math
+    mant, ex = math.frexp(v)
+    b = int(mant * 2 ** 53)
+    x = ex - 53
+    while b and b % 2 == 0:
+        b //= 2
+        x += 1
+    if float(b) * 2.0 ** x != v and math.ldexp(float(b), x) != v:
+        raise Untranslatable(f"binary decomposition of {v!r} failed")
+    return b, x
 
 
 def callee(f):
@@ -81,7 +94,8 @@ class Expr:
                 fail(e, "float literal text does not denote the parsed value")
             sign, digits, exp = d.as_tuple()
             mant = int("".join(map(str, digits))) * (-1 if sign else 1)
-            return f"(llit N ({mant}) ({exp}) ({float.hex(v)})%float)"
+            b, x = bin_parts(v)
+            return f"(llit N ({mant}) ({exp}) ({b}) ({x}))"
         fail(e, "literal")
         return None
 
